@@ -121,6 +121,9 @@ def _apply(obj, op, X, A, is_list):
         obj.clear()
         return ["none"]
     if k == "index":
+        if "s" in op:
+            args = (op["s"],) if op.get("e", "omit") == "omit" else (op["s"], op["e"])
+            return ["int", obj.index(val(op["v"]), *args)]
         return ["int", obj.index(val(op["v"]))]
     if k == "count":
         return ["int", obj.count(val(op["v"]))]
@@ -239,6 +242,9 @@ def _opc(op):
         return "(OPop %s %s)" % (vf.optc(op["i"]), vf.boolc(bool(op.get("bad"))))
     if k == "remove":
         return "(ORemove %s)" % _valc(op["v"])
+    if k == "index" and "s" in op:
+        e = op.get("e", "omit")
+        return "(OIndexR %s %s %s)" % (_valc(op["v"]), vf.zc(op["s"]), "None" if e == "omit" else "(Some %s)" % vf.zc(e))
     if k in ("index", "count"):
         return "(%s %s)" % ("OIndex" if k == "index" else "OCount", _valc(op["v"]))
     if k == "eq":
@@ -341,6 +347,12 @@ def _rand_op(rng, n, pool):
         return {"op": k, "a": ri(), "b": ri(), "c": rng.choice([None, None, None, 1, -1, 2, -2, 3, 0]), "vs": [kind, items]}
     if k == "insert":
         return {"op": k, "i": rng.choice(list(range(-n - 3, n + 4)) + ["bad"]), "v": v()}
+    if k == "index" and rng.random() < 0.5:
+        # index(v, start[, stop]) with negative / out-of-range bounds
+        op = {"op": k, "v": v(), "s": rng.randrange(-n - 2, n + 3)}
+        if rng.random() < 0.6:
+            op["e"] = rng.randrange(-n - 2, n + 3)
+        return op
     if k in ("append", "remove", "index", "count"):
         return {"op": k, "v": v()}
     if k in ("extend", "iadd"):
